@@ -16,7 +16,7 @@ import (
 var (
 	lits      = []string{"v1", "bk", "sh", "it", "x.y", "a-b", "q"}
 	strFields = []string{"a", "b", "c", "d", "sub.a", "sub.b", "sub.deep.s", "os", "long_name"}
-	typFields = []string{"n", "l", "f", "e", "dbl", "y", "u", "sub.l", "sub.deep.n", "sub.e", "sf32", "ul"}
+	typFields = []string{"n", "l", "f", "e", "dbl", "y", "u", "sub.l", "sub.deep.n", "sub.e", "sf32", "ul", "flt", "flt", "sn", "sl", "f32", "f64", "sf64"}
 	verbSufs  = []string{"get", "cancel", "v", "x1"}
 	// values for string captures: every documented path character class,
 	// single characters, unicode letters, and words colliding with literals
@@ -33,6 +33,16 @@ var typVals = map[protoreflect.Kind][]string{
 	protoreflect.EnumKind:     {"RED", "GREEN", "BLUE", "1", "5", "0", "COLOR_UNSPECIFIED"},
 	protoreflect.DoubleKind:   {"1.5", "-0.25", "1e10", "3", "0"},
 	protoreflect.BytesKind:    {"YQ==", "YWI=", "YWJj", "_-8=", "YQ", "AAECAwQ="},
+	// 32-bit floats: the extremes of the type, an integer that is not a
+	// float32 (rounds), a decimal within half a float64 ulp of a float32
+	// rounding midpoint (a conversion through float64 rounds it twice) and a
+	// value that underflows
+	protoreflect.FloatKind:    {"1.5", "-0.25", "0", "3.4028235e38", "-3.4028234e38", "16777217", "1.000000059604644775390625000000000001", "1e-46", "7"},
+	protoreflect.Sint32Kind:   {"0", "-1", "2147483647", "-2147483648"},
+	protoreflect.Sint64Kind:   {"0", "-9223372036854775808", "9223372036854775807", "12"},
+	protoreflect.Fixed32Kind:  {"0", "4294967295", "9"},
+	protoreflect.Fixed64Kind:  {"0", "18446744073709551615", "11"},
+	protoreflect.Sfixed64Kind: {"0", "-9223372036854775808", "9223372036854775807"},
 }
 
 // badVals are texts no proto3 JSON reading accepts for the kind.
@@ -46,6 +56,14 @@ var badVals = map[protoreflect.Kind][]string{
 	protoreflect.EnumKind:     {"PURPLE", "red", "1x"},
 	protoreflect.DoubleKind:   {"abc", "1e999", "1..2"},
 	protoreflect.BytesKind:    {"!!!!", "Y", "a b"},
+	// magnitudes between the float32 and the float64 range have no float32
+	// value
+	protoreflect.FloatKind:    {"abc", "1e39", "-3.5e38", "3.5e38", "1..2", "1e999"},
+	protoreflect.Sint32Kind:   {"2147483648", "-2147483649", "z"},
+	protoreflect.Sint64Kind:   {"9223372036854775808", "x1"},
+	protoreflect.Fixed32Kind:  {"-1", "4294967296"},
+	protoreflect.Fixed64Kind:  {"-1", "18446744073709551616"},
+	protoreflect.Sfixed64Kind: {"9223372036854775808", "-9223372036854775809"},
 }
 
 func reqDesc() protoreflect.MessageDescriptor { return vschema.Msg("vf.Req") }
